@@ -73,7 +73,7 @@ func (c14) Build(tier string, seed uint64) []any {
 			add(enumBatches("enum", g.w, g.h, g.c, g.p, near, 4096))
 		}
 	}
-	per := 8
+	per := 40
 	if th {
 		per = 300
 	}
